@@ -111,11 +111,13 @@ def make_ptycho(seed, obj_type="complex", num_slices=1, n_modes=1, rng=42, scan=
     m = setup()
     pd = make_dataset(seed, scan=scan)
     obj_model = m["Obj"].from_uniform(num_slices=num_slices, obj_type=obj_type,
-                                      slice_thicknesses=1 if num_slices == 1 else 2.0)
+                                      slice_thicknesses=1 if num_slices == 1 else 2.0,
+                                      rng=int(rng) + 1 if isinstance(rng, int) else rng)
     params = {"energy": ENERGY, "C10": C10,
               "semiangle_cutoff": m["wavelength"](ENERGY) * 1e3 * Q_MAX / 2}
     pa = probe_array(n_modes)
-    probe_model = m["Probe"].from_array(num_probes=n_modes, probe_params=params, probe_array=pa)
+    probe_model = m["Probe"].from_array(num_probes=n_modes, probe_params=params, probe_array=pa,
+                                        rng=int(rng) + 2 if isinstance(rng, int) else rng)
     det = m["Detector"]()
     P = cls or m["Ptychography"]
     pt = P.from_models(dset=pd, obj_model=obj_model, probe_model=probe_model, detector_model=det,
